@@ -8,8 +8,8 @@ noLongerProvides sequence on an instance.  Objects are reported as node numbers
 (0 = Interface, interfaces, implementedBy(object), class specifications); anything else is 999.
 An observation that raised is reported as {"exc": <type name>}."""
 import _boot
-from zope.interface import (Interface, alsoProvides, directlyProvidedBy, directlyProvides, implementedBy,
-                            implementer, noLongerProvides, providedBy)
+from zope.interface import (Interface, alsoProvides, classImplements, directlyProvidedBy, directlyProvides,
+                            implementedBy, implementer, noLongerProvides, providedBy)
 from zope.interface.declarations import Declaration
 from zope.interface.interface import InterfaceClass
 
@@ -25,11 +25,38 @@ def run_case(case):
     objs[obj_node] = implementedBy(object)
     classes = {obj_node: object}
     bases_ok = True
+    decls = []
+
+    def build(t):
+        if "l" in t:
+            return objs[t["l"]]
+        if "s" in t:
+            xs = [build(x) for x in t["s"]]
+            kind = t.get("t")
+            if kind == "list":
+                return xs
+            if kind == "gen":            # one-shot iterables: may be traversed only once
+                return (v for v in xs)
+            if kind == "iter":
+                return iter(xs)
+            if kind == "map":
+                return map(lambda v: v, xs)
+            return tuple(xs)
+        if "d" in t:
+            return Declaration(*[build(x) for x in t["d"]])
+        return decls[t["r"]]
+
     for k, cd in enumerate(case["classes"]):
         node = n + 2 + k
         pybases = tuple(classes[b] for b in cd["bases"]) or (object,)
         cls = type("K%d" % k, pybases, {"__module__": "c20"})
-        if cd["decl"]:
+        if cd.get("dtrees") is not None:
+            args = [build(x) for x in cd["dtrees"]]
+            if cd.get("via") == "classImplements":
+                classImplements(cls, *args)
+            elif args:
+                implementer(*args)(cls)
+        elif cd["decl"]:
             implementer(*[objs[x] for x in cd["decl"]])(cls)
         classes[node] = cls
         spec = implementedBy(cls)
@@ -44,18 +71,6 @@ def run_case(case):
 
     graph = [[k, ids(objs[k].__bases__)] for k in sorted(objs)]
     ifs = list(range(0, n + 1))
-
-    decls = []
-
-    def build(t):
-        if "l" in t:
-            return objs[t["l"]]
-        if "s" in t:
-            xs = [build(x) for x in t["s"]]
-            return xs if t.get("t") == "list" else tuple(xs)
-        if "d" in t:
-            return Declaration(*[build(x) for x in t["d"]])
-        return decls[t["r"]]
 
     for d in case["decls"]:
         if "spec" in d:
